@@ -962,7 +962,7 @@ impl<'c, T: Kind, U: Kind> Run<'c, T, U> {
         }
         v.push(Op::Drain(255));
         v.push(Op::Drain(1));
-        if p != Prop::C12 {
+        if p != Prop::C12 && p != Prop::C20 {
             v.push(Op::Clear);
         }
         let m = self.model.len();
